@@ -200,6 +200,16 @@ func scenarioC14(x *runner.X) {
 		}
 		return df
 	}
+	var retained [][]byte // results of earlier fault-free reassemblies (the slices as returned)
+	var retainedWant [][]byte
+	checkRetained := func(after string) bool {
+		for i := range retained {
+			if !bytes.Equal(retained[i], retainedWant[i]) {
+				return x.Failf("oracle", "bytes returned by an earlier reassembly changed afterwards (buffer reuse)", "after %s: result %d of %d bytes", after, i, len(retainedWant[i]))
+			}
+		}
+		return false
+	}
 	run := func(name string, st *c14store, firstFrame *ipldbindcode.DataFrame, faulty bool) (stop bool) {
 		var got []byte
 		var err error
@@ -230,7 +240,12 @@ func scenarioC14(x *runner.X) {
 			if !bytes.Equal(got, payload) {
 				return x.Failf("oracle", "fault-free reassembly returned different bytes", "%d bytes in %d frames fanout %d: got %d bytes", size, n, fanout, len(got))
 			}
+			retained = append(retained, got)
+			retainedWant = append(retainedWant, append([]byte(nil), payload...))
 			return false
+		}
+		if checkRetained(name) {
+			return true
 		}
 		if err == nil && !bytes.Equal(got, payload) && guarded {
 			return x.Failf("oracle", "reassembly returned different bytes instead of an error: "+name,
@@ -302,6 +317,41 @@ func scenarioC14(x *runner.X) {
 			c14encodeFrame(&alt, a, a.frames)
 			st.m[fi.cid.String()] = alt.enc
 			if run("frame-next-cycle", st, first(a), true) {
+				return
+			}
+		}
+	}
+	// every next list names each successor twice (frames of the chain are then reachable along many paths)
+	if n > 2 {
+		dbl := c14build(payload, n, fanout, checksum, total, 1)
+		for i := n - 1; i >= 0; i-- {
+			f := dbl.frames[i]
+			var nn []int
+			for _, k := range f.next {
+				nn = append(nn, k, k)
+			}
+			f.next = nn
+			c14encodeFrame(f, dbl, dbl.frames)
+		}
+		st := &c14store{m: map[string][]byte{}, limit: 50*n + 100, alias: map[string]string{}}
+		for _, f := range dbl.frames[1:] {
+			st.m[f.cid.String()] = f.enc
+		}
+		df, err := iplddecoders.DecodeDataFrame(dbl.frames[0].enc)
+		if err == nil {
+			if run("next-links-doubled", st, df, true) {
+				return
+			}
+		}
+	}
+	// a second fault-free reassembly of another payload, then the first result must be unchanged
+	{
+		st := &c14store{m: map[string][]byte{}, limit: 50*n + 100, alias: map[string]string{}}
+		for _, f := range b.frames[1:] {
+			st.m[f.cid.String()] = f.enc
+		}
+		if got, err := tooling.LoadDataFromDataFrames(first(b), st.get); err == nil && bytes.Equal(got, payloadB) {
+			if checkRetained("reassembling a second payload") {
 				return
 			}
 		}
